@@ -98,9 +98,29 @@ func (s *svc) Shutdown(context.Context) error {
 	return nil
 }
 
+// runBubble runs f inside a synctest bubble with a real-time watchdog: a
+// scenario that normally takes milliseconds and has not finished after 30 s
+// of real time is stuck on something that is not under the harness's control.
+func runBubble[C any](kind string, c C, what string, f func()) {
+	done := make(chan struct{})
+	go func() {
+		defer close(done)
+		synctest.Run(f)
+	}()
+	timer := time.NewTimer(30 * time.Second)
+	defer timer.Stop()
+	select {
+	case <-done:
+	case <-timer.C:
+		vp.RecordFailure(kind, c, fmt.Errorf("the scenario did not finish within 30 s of real time (normally milliseconds): %s", what))
+		fmt.Println("VP-HANG", kind)
+		os.Exit(1)
+	}
+}
+
 func checkSignal(c SignalCase) error {
 	v := &verdict{}
-	synctest.Run(func() {
+	runBubble("c18.signal", c, "Handle or a Shutdown call is blocked", func() {
 		var mu sync.Mutex
 		var calls []int
 		n := &notifier{}
@@ -250,7 +270,7 @@ func checkRefresh(c RefreshCase) error {
 	inflight := false
 	nRefresh, nErr := 0, 0
 	var smu sync.Mutex
-	synctest.Run(func() {
+	runBubble("c18.refresh", c, "the refresh loop or Shutdown is blocked", func() {
 		var mu sync.Mutex
 		var afters, untils []time.Duration
 		var recs []refreshRec
